@@ -329,11 +329,14 @@ def fam_query(g, prop, count, types):
         lst = []
         for i in range(k):
             n = g.r.randint(1, 7)
-            A = sweep_matrix(g, ty, n)
+            # badly scaled in half of the cases: an earlier factorization then leaves equed = R / C / B, R, C in the caller's
+            # objects, which the query must not touch
+            A = sweep_matrix(g, ty, n) if g.r.random() < 0.5 else scaled_matrix(g, n, cplx, 8)
+            n = max(k2[0] for k2 in A) + 1
             fn = g.r.choice(["gssvx", "gssvx", "gsisx"])
             ilu = fn == "gsisx"
             B = g.rhs_for(A, n, 1, cplx)
-            opts = {"iludefault" if ilu else "default": 0, "ColPerm": g.r.choice([NATURAL, COLAMD, MMD_ATA]), "Equil": g.r.choice([0, 1]),
+            opts = {"iludefault" if ilu else "default": 0, "ColPerm": g.r.choice([NATURAL, COLAMD, MMD_ATA]), "Equil": g.r.choice([0, 1, 1]),
                     "Trans": g.r.choice([0, 1]), "PivotGrowth": g.r.choice([0, 1]), "Cond": g.r.choice([0, 1])}
             if ilu:
                 opts["RowPerm"] = g.r.choice([0, 1])
@@ -1015,9 +1018,10 @@ def fam_ilu(g, prop, count, types, nmax=8):
             fmt = r.choice(["NC", "NC", "NR"])
             if cplx and fmt == "NR" and o["Trans"] == 2:
                 o["Trans"] = 1
-            nrhs = r.choice([1, 2])
+            nrhs = r.choice([1, 2, 3])
             B = [small_vec(g, n, cplx) for _ in range(nrhs)]
-            lines = ["tune " + " ".join(map(str, g.tune()))] + g.mat_lines(A, n, n, fmt, cplx) + g.rhs_lines(B, n, nrhs, n, cplx) + opt_lines(o)
+            ldb = n + r.choice([0, 0, 2]); ldx = n + r.choice([0, 0, 1, 3])          # B and X need not share a leading dimension
+            lines = ["tune " + " ".join(map(str, g.tune()))] + g.mat_lines(A, n, n, fmt, cplx) + g.rhs_lines(B, n, nrhs, ldb, cplx, ldx=ldx) + opt_lines(o)
             lines += gssvx_block(work=None, events=0, fn="gsisx") + ["destroy all", "ledger"]
             lst.append({"id": "%s-ilu%s%s-%05d-%s" % (prop, kind, "nodrop" if nodrop else "", i, ty), "lines": lines, "n": n})
         out[ty] = lst
